@@ -369,7 +369,7 @@ def replay_batch_max_2d(inputs, label, shape, b):
         if idx.ndim != 2:
             return label == "indices_2col", f"idx={idx}"
         pos = [int(r[0]) * shape[1] + int(r[1]) for r in idx]
-        bad = _batch_laws_conc(u.reshape(-1), np.array(pos), np.asarray(bu).reshape(len(pos), -1), b)
+        bad = _batch_laws_conc(u.reshape(-1), np.array(pos, dtype=int), np.asarray(bu).reshape(len(pos), u.size), b)
         if label in bad:
             return True, f"utilities={u.tolist()} b={b} seed={s} -> {idx.tolist()}"
     return False, "no violation"
